@@ -19,7 +19,9 @@ ROWS = [
      "cost": 15},
     # ---------------------------------------------------------------- Bollinger bands
     {"entry": "c05_bollinger_bands", "indicator": "BollingerBands", "aspects": ["values", "ranges"],
-     "params": [{"n": 3, "src": "close", "t": 5}, {"n": 4, "src": "close", "t": 4}, {"n": 3, "src": "hl2", "t": 4}, {"n": 3, "src": "tp", "t": 3}],
+     "params": [{"n": 3, "src": "close", "t": 5}, {"n": 4, "src": "close", "t": 4}, {"n": 3, "src": "hl2", "t": 3}, {"n": 3, "src": "tp", "t": 2},
+                # deepening: decided in ~60 s on an idle machine, 'unknown' from the non-linear core under load
+                {"n": 3, "src": "hl2", "t": 4, "_tier": "t", "_core": False}, {"n": 3, "src": "tp", "t": 3, "_tier": "t", "_core": False}],
      "bound": "avg_size n, sigma 1.125, t steps (hl2 / tp sources only 4 / 3 steps: deeper non-linear queries are not decided by the solvers); "
               "reference: middle = mean of the last n sources, upper - middle >= 0, ((upper-middle)/sigma)^2 = sample variance (divisor n-1, the crate's StDev definition) of the last n sources, "
               "middle - lower = upper - middle; ranges: upper >= middle >= lower",
